@@ -8,6 +8,10 @@ scale (integral of |integrand|) and their own error estimate (order 16 against o
 is computed here; the verdict is TV_Integral.tla's.
 """
 import math
+import os
+
+for _v in ("OMP_NUM_THREADS", "OPENBLAS_NUM_THREADS", "MKL_NUM_THREADS"):  # 16 worker processes: no nested thread pools
+    os.environ.setdefault(_v, "1")
 
 import numpy as np
 
@@ -171,20 +175,31 @@ def flux_nodes(inst, der, n, sub):
     return np.concatenate(Us), np.concatenate(Ws), np.concatenate(AXs), np.concatenate(SGs)
 
 
+def graded(level):
+    """panels of [0,1]: one panel for level 0, else dyadically graded towards both ends down to 2**-level
+    (material surfaces, switch surfaces and the nearest approach to wires sit at the ends of the pieces)"""
+    if level <= 0:
+        return [(0.0, 1.0)]
+    left = [0.0] + [2.0 ** -k for k in range(level, 0, -1)]  # 0, 2^-L, ..., 1/2
+    pts = left + [1.0 - x for x in reversed(left[:-1])]
+    return list(zip(pts[:-1], pts[1:]))
+
+
 def circ_nodes(inst, der, n, sub):
-    """-> (U (m,3), W (m,), D (m,3) = b - a of the edge in chart coordinates)"""
+    """-> (U (m,3), W (m,), D (m,3) = b - a of the edge in chart coordinates); sub = grading level of every piece"""
     t, w = gl(n)
+    g = np.array(graded(0 if sub <= 1 else sub))  # (k,2) panels of the unit interval
     Us, Ws, Ds = [], [], []
     for (a, b), brk in zip(inst["edges"], der["ebrk"]):
         a, b = np.array(a, dtype=float), np.array(b, dtype=float)
-        ts = sorted(set([0.0, 1.0] + [num / den for num, den in brk]))
-        for t0, t1 in zip(ts[:-1], ts[1:]):
-            for k in range(sub):
-                s0, s1 = t0 + (t1 - t0) * k / sub, t0 + (t1 - t0) * (k + 1) / sub
-                tt = s0 + t * (s1 - s0)
-                Us.append(a[None, :] + tt[:, None] * (b - a)[None, :])
-                Ws.append(w * (s1 - s0))
-                Ds.append(np.tile(b - a, (n, 1)))
+        ts = np.array(sorted(set([0.0, 1.0] + [num / den for num, den in brk])))
+        t0, t1 = ts[:-1, None], ts[1:, None]
+        s0 = (t0 + (t1 - t0) * g[None, :, 0]).reshape(-1)  # all panels of all pieces of this edge
+        s1 = (t0 + (t1 - t0) * g[None, :, 1]).reshape(-1)
+        tt = (s0[:, None] + t[None, :] * (s1 - s0)[:, None]).reshape(-1)
+        Us.append(a[None, :] + tt[:, None] * (b - a)[None, :])
+        Ws.append((w[None, :] * (s1 - s0)[:, None]).reshape(-1))
+        Ds.append(np.broadcast_to(b - a, (len(tt), 3)))
     return np.concatenate(Us), np.concatenate(Ws), np.concatenate(Ds)
 
 
@@ -209,18 +224,25 @@ def integrand(inst, der, n, sub):
 QCAP = 2_000_000_000
 
 
-def measure_group(magpy, scene, items, kap, orders=(16, 32), subs=(1, 3), qerr_redo=1e-9):
+SUBS = {"flux": (1, 3), "circ": (1, 7, 14)}   # flux: uniform k x k panels per piece; circ: grading level per piece
+
+
+def measure_group(magpy, scene, items, kap, orders=(16, 32), qerr_redo=1e-9):
     """items: list of (tid, inst, der) sharing `scene`. Returns list of event dicts (without prop).
     Pieces whose two orders disagree by more than qerr_redo of the gross scale are measured once more with every
     piece subdivided (composite rule); what remains above 1e-8 is reported as it is (the validator calls it unmeasurable)."""
     obj = build_scene(magpy, scene, kap)
     todo = list(items)
     done = {}
-    for sub in subs:
+    first = {}
+    for rnd in range(3):
         if not todo:
             break
         res = {}
         for law in ("flux", "circ"):
+            if rnd >= len(SUBS[law]):
+                continue
+            sub = SUBS[law][rnd]
             geo = []
             for tid, inst, der in todo:
                 if inst["law"] != law:
@@ -239,33 +261,39 @@ def measure_group(magpy, scene, items, kap, orders=(16, 32), subs=(1, 3), qerr_r
                 m = len(X)
                 Ff = F[o:o + m] @ np.array(ch["R"], dtype=float)  # components in the chart frame: R^T F
                 o += m
-                d = np.einsum("ij,ij->i", Ff, G)
-                fin = bool(np.isfinite(d).all())
-                df = d[np.isfinite(d)]
+                d = Ff * G  # the summands F_c * G_c: the gross scale is the sum of their magnitudes
+                ok = np.isfinite(d).all(axis=1)
+                fin = bool(ok.all())
+                df = d[ok]
                 res[(tid, n)] = (float(df.sum()) * scale, float(np.abs(df).sum()) * scale, fin, m)
         nxt = []
         for tid, inst, der in todo:
+            if (tid, orders[0]) not in res:
+                continue
+            sub = SUBS[inst["law"]][rnd]
             v16, g16, f16, m16 = res[(tid, orders[0])]
             v32, g32, f32, m32 = res[(tid, orders[1])]
             gross = max(g32, g16)
             qerr = abs(v32 - v16) / gross if gross > 0 else 0.0
             ev = {"tid": tid, "kappa": "id" if kap.identity else "rnd", "inst": inst, "der": der,
                   "meas": {"q": q12(v32, gross), "fin": bool(f16 and f32)}, "meas8": q8(v32, gross),
-                  "qerr": int(min(round(qerr * 1e12), QCAP)), "sub": sub, "nodes": m16 + m32,
+                  "qerr": int(min(round(qerr * 1e12), QCAP)), "sub": sub, "nodes": m16 + m32 + (done[tid]["nodes"] if tid in done else 0),
                   "raw": {"v16": v16, "v32": v32, "gross": gross, "lam": kap.lam}}
             if inst["law"] == "circ":
                 big = not (gross > 0 and 1.0 / gross <= 100.0)
                 ev["amp"] = {"big": bool(big), "q": [0, 0] if big else q12(1.0, gross)}
             else:
                 ev["amp"] = {"big": False, "q": [0, 0]}
+            first.setdefault(tid, ev["qerr"])
+            ev["qerr1"] = first[tid]  # error estimate before any refinement
             done[tid] = ev
-            if ev["meas"]["fin"] and qerr > qerr_redo and sub != subs[-1]:
+            if ev["meas"]["fin"] and qerr > qerr_redo and rnd + 1 < len(SUBS[inst["law"]]):
                 nxt.append((tid, inst, der))
         todo = nxt
     return [done[t] for t, _, _ in items]
 
 
-TV_KEYS = ("tid", "prop", "kappa", "inst", "der", "meas", "meas8", "qerr", "amp")
+TV_KEYS = ("tid", "prop", "kappa", "inst", "der", "meas", "meas8", "qerr", "qerr1", "sub", "amp")
 
 
 def tv_event(e):
@@ -288,7 +316,7 @@ def run_job(job):
             evs = measure_group(magpy, scene, items, kap)
         except Exception as ex:  # an exception of the library on a well-posed instance is itself an observation
             evs = [{"tid": tid, "kappa": "id" if kap.identity else "rnd", "inst": inst, "der": der, "meas": {"q": [0, 0], "fin": False}, "meas8": 0,
-                    "qerr": 0, "sub": 0, "nodes": 0, "amp": {"big": False, "q": [0, 0]}, "raw": {"exception": repr(ex), "lam": kap.lam}} for tid, inst, der in items]
+                    "qerr": 0, "qerr1": 0, "sub": 0, "nodes": 0, "amp": {"big": False, "q": [0, 0]}, "raw": {"exception": repr(ex), "lam": kap.lam}} for tid, inst, der in items]
         for e in evs:
             e["prop"] = prop
             e["kappa_desc"] = kap.describe()
